@@ -121,6 +121,12 @@ impl Stack {
     pub fn peek(&self) -> &Value {
         self.values.last().unwrap()
     }
+
+    /// Height of the stack (observation hook).
+    #[cfg(feature = "verif_hooks")]
+    pub fn verif_len(&self) -> usize {
+        self.values.len()
+    }
 }
 
 impl From<Vec<Value>> for Stack {
